@@ -10,7 +10,6 @@ import (
 	"fmt"
 	"math/big"
 	"strings"
-	"sync/atomic"
 	"testing"
 	"time"
 
@@ -25,9 +24,6 @@ import (
 
 const workers = 8
 
-// hangState: 0 no predicted hang re-run yet, 3 re-run in progress, 1 confirmed, 2 refuted (probe unreliable)
-var hangState atomic.Int32
-var hangAttempts atomic.Int32
 
 func TestC19(t *testing.T) {
 	r := vcore.Start(t, "C19")
@@ -47,6 +43,7 @@ func TestC19(t *testing.T) {
 	checkRegistry(r)
 	topos := genTopologies(r)
 	phase("topologies", func() { runTopologies(r, topos) })
+	phase("large", func() { runLarge(r) })
 	phase("poseidon2", func() { runPoseidon2(r) })
 	phase("provers", func() { runProvers(r, topos) })
 	phase("testengine", func() { runTestEngine(r, topos) })
@@ -57,6 +54,7 @@ func TestC19(t *testing.T) {
 		"adv.hint-calls-intercepted", "adv.control-accepted", "adv.rejected",
 		"adv.class.outputs.rejected", "adv.class.outputs+own-proof.rejected", "adv.class.proof.rejected", "adv.class.inputs.rejected",
 		"topo.with-series-dependencies", "topo.with-fan-out", "topo.with-custom-gates",
+		"large.accepted", "large.cases.instances=2048", "large.cases.instances=4096",
 		"pos2.honest-accepted", "pos2.adv.rejected", "provers.verified", "testengine.accepted",
 	} {
 		r.Require(c, 1)
@@ -270,39 +268,6 @@ func runTopoOnCurve(r *vcore.Run, t *topo, k *curveKit) {
 			// observation, not part of the property: gkr.API.Solve permutes the caller's Import slices in place
 			r.Count("observed.import-slices-reordered-in-place-by-Solve", 1)
 			r.SampleClass("observed/import-slice-reordered", map[string]any{"topology": t.String(), "note": "the slice passed to gkr.API.Import was permuted in place by gkr.API.Solve"})
-		}
-
-		if info, ok := k.info(ccsB); ok {
-			if hangs, detail := hangProbe(info); hangs {
-				t.skip.Store(true)
-				r.Eval(key+"/hang", true)
-				r.Count("hang.predicted-by-probe", 1)
-				vals := genValues(r.Rand("hang/"+key), k.mod, len(cA.Vals), "small")
-				note := "not re-run in a child process"
-				if t.N <= 8 && hangAttempts.Load() < 3 && hangState.CompareAndSwap(0, 3) {
-					hangAttempts.Add(1)
-					verdict, n := confirmHang(r, t, k, b, vals)
-					note = n
-					r.Set("hang_rerun_in_child_process", map[string]any{"topology": t.String(), "curve": k.name, "builder": b, "probe": detail, "verdict": verdict, "observation": n})
-					switch verdict {
-					case 1:
-						r.Count("hang.confirmed-in-child-process", 1)
-						hangState.Store(1)
-					case -1:
-						r.Count("hang.refuted-in-child-process", 1)
-						hangState.Store(2)
-					default:
-						r.Count("hang.child-process-did-not-reach-solve", 1)
-						hangState.Store(0)
-					}
-				}
-				if hangState.Load() == 2 {
-					r.Inconclusive("probe predicted a non-returning Solve, but Solve returned in a child process")
-				} else {
-					r.Violation("solver/gkr-solving-hint-does-not-terminate", detail+"; "+note, replayOf(t, k, b, vals, map[string]any{"probe": detail}))
-				}
-				continue
-			}
 		}
 
 		nSets := r.Pick(2, 3)
